@@ -519,3 +519,143 @@ Proof.
     split; [discriminate|]. split; reflexivity.
   - exact (C09_read_mixed_formats c09_fsA c09_fsB (of_string "/r/root") 41%Z 7%Z Hrel ltac:(discriminate) ltac:(discriminate)).
 Qed.
+
+(* ================================================================================================== *)
+(* non-vacuity examples added after the reviewer's audit (Properties/C09_nv.v, 2026-10-01)         *)
+(* ================================================================================================== *)
+
+(* ==== non-vacuity instances obtained BY APPLYING the theorems above (added after review) ================== *)
+
+(* C09_includes_same_table on the document of C09_includes_front_ends_nonvacuous (two includes, content of depth 2 with a
+   quoted string, a list and a nested dict; JSON counter 41, native counter 999998: the native numbering wraps) *)
+Example C09_includes_same_table_nonvacuous :
+  let dir := of_string "/r" in let ins := c09_ins in let kvs := c09_inc_doc in
+  wf (Dict (json_inc_kvs ins ++ kvs)) = true /\ forallb inc_ok ins = true /\ strs_nodup (inames ins) = true /\
+  writable_tree (Dict kvs) = true /\ ordinary_kvs kvs = true /\ no_include_keys kvs = true /\ quoted_within 11 (Dict kvs) = true /\
+  forallb (fun n => negb (has_char c_bsl n)) (inames ins) = true /\
+  (let pj := json_parse dir 41 (json_inc_kvs ins ++ kvs) in
+   exists pn, parse_string true dir 999998 (inc_text (inames ins) ++ to_string_plain kvs) = Ok pn /\
+    inc_names (sd_inc (pr_sd pj)) = map (fun n => (n, path_join dir n)) (inames ins) /\
+    inc_names (sd_inc (pr_sd pn)) = inc_names (sd_inc (pr_sd pj)) /\
+    (forallb (fun n => negb (has_char c_bsl n)) (inames ins) = true ->
+     map snd (sd_inc (pr_sd pn)) = map snd (sd_inc (pr_sd pj))) /\
+    sd_data (pr_sd pj) = inc_phs (map fst (sd_inc (pr_sd pj))) ++ kvs /\
+    sd_data (pr_sd pn) = inc_phs (map fst (sd_inc (pr_sd pn))) ++
+                         kvs_of (map_leaves written_value (Dict (skipn (length ins) (sd_data (pr_sd pj))))) /\
+    sd_expr (pr_sd pj) = [] /\ sd_expr (pr_sd pn) = []) /\
+  map (fun n => (n, path_join dir n)) (inames ins) =
+    [(of_string "b.json", of_string "/r/b.json"); (of_string "sub dir/c", of_string "/r/sub dir/c")].
+Proof.
+  intros dir ins kvs.
+  assert (H1 : wf (Dict (json_inc_kvs ins ++ kvs)) = true) by (vm_compute; reflexivity).
+  assert (H2 : forallb inc_ok ins = true) by (vm_compute; reflexivity).
+  assert (H3 : strs_nodup (inames ins) = true) by (vm_compute; reflexivity).
+  assert (H4 : writable_tree (Dict kvs) = true) by (vm_compute; reflexivity).
+  assert (H5 : ordinary_kvs kvs = true) by (vm_compute; reflexivity).
+  assert (H6 : no_include_keys kvs = true) by (vm_compute; reflexivity).
+  assert (H7 : quoted_within 11 (Dict kvs) = true) by (vm_compute; reflexivity).
+  refine (conj H1 (conj H2 (conj H3 (conj H4 (conj H5 (conj H6 (conj H7 (conj _ (conj _ _))))))))); try (vm_compute; reflexivity).
+  exact (C09_includes_same_table dir 41%Z 999998%Z ins kvs H1 H2 H3 H4 H5 H6
+           ltac:(discriminate) ltac:(discriminate) ltac:(vm_compute; discriminate) ltac:(vm_compute; discriminate) H7).
+Qed.
+
+(* C09_expressions_json / C09_expressions_native on c09_xdoc (two references, one of them indexed, two expressions, four
+   ordinary leaves); JSON counter 41, native counter 999997 (the numbering wraps between the expressions and the
+   references); the closed forms by the theorems, their values by computation *)
+Example C09_expressions_json_nonvacuous :
+  xdoc_ok c09_xdoc = true /\ (Z.of_nat (length (xtexts c09_xdoc)) <= 1000000)%Z /\
+  (let ks := ids 41 (length (xtexts c09_xdoc)) in
+   json_parse (of_string "/r") 41 c09_xdoc =
+     mkParsed (mkSD (lab1 ks c09_xdoc) [] [] [] (xtab ks (xtexts c09_xdoc))) (cafter 41 (length (xtexts c09_xdoc)))) /\
+  ids 41 (length (xtexts c09_xdoc)) = [42; 43; 44; 45]%N /\ cafter 41 (length (xtexts c09_xdoc)) = 45%Z /\
+  map snd (lab1 [42; 43; 44; 45]%N c09_xdoc) =
+    [Leaf (SInt 5); Leaf (SStr (of_string "EXPRESSION000042")); Leaf (SStr (of_string "EXPRESSION000043"));
+     Leaf (SStr (of_string "word")); Leaf (SStr (of_string "EXPRESSION000044")); Leaf (SStr (of_string "EXPRESSION000045"));
+     Leaf (SFloat (of_string "1.5")); Leaf (SBool true)].
+Proof.
+  assert (H1 : xdoc_ok c09_xdoc = true) by (vm_compute; reflexivity).
+  assert (H2 : (Z.of_nat (length (xtexts c09_xdoc)) <= 1000000)%Z) by (vm_compute; discriminate).
+  refine (conj H1 (conj H2 (conj (C09_expressions_json (of_string "/r") 41%Z c09_xdoc H1 ltac:(discriminate) H2) _))).
+  repeat split; vm_compute; reflexivity.
+Qed.
+
+Example C09_expressions_native_nonvacuous :
+  xdoc_ok c09_xdoc = true /\ (Z.of_nat (length (xexprs c09_xdoc) + length (xrefs c09_xdoc)) <= 1000000)%Z /\
+  (let es := ids 999997 (length (xexprs c09_xdoc)) in let c' := cafter 999997 (length (xexprs c09_xdoc)) in
+   let rs := ids c' (length (xrefs c09_xdoc)) in
+   parse_string true (of_string "/r") 999997 (to_string_plain c09_xdoc) =
+     Ok (mkParsed (mkSD (lab2 es rs c09_xdoc) [] [] [] (xtab es (xexprs c09_xdoc) ++ xtab rs (xrefs c09_xdoc)))
+                  (cafter c' (length (xrefs c09_xdoc))))) /\
+  ids 999997 (length (xexprs c09_xdoc)) = [999998; 999999]%N /\ cafter 999997 (length (xexprs c09_xdoc)) = 999999%Z /\
+  ids 999999 (length (xrefs c09_xdoc)) = [0; 1]%N /\ cafter 999999 (length (xrefs c09_xdoc)) = 1%Z /\
+  map snd (lab2 [999998; 999999]%N [0; 1]%N c09_xdoc) =
+    [Leaf (SInt 5); Leaf (SStr (of_string "EXPRESSION000000")); Leaf (SStr (of_string "EXPRESSION999998"));
+     Leaf (SStr (of_string "word")); Leaf (SStr (of_string "EXPRESSION000001")); Leaf (SStr (of_string "EXPRESSION999999"));
+     Leaf (SFloat (of_string "1.5")); Leaf (SBool true)].
+Proof.
+  assert (H1 : xdoc_ok c09_xdoc = true) by (vm_compute; reflexivity).
+  assert (H2 : (Z.of_nat (length (xexprs c09_xdoc) + length (xrefs c09_xdoc)) <= 1000000)%Z) by (vm_compute; discriminate).
+  refine (conj H1 (conj H2 (conj (C09_expressions_native true (of_string "/r") 999997%Z c09_xdoc H1 ltac:(discriminate) H2) _))).
+  repeat split; vm_compute; reflexivity.
+Qed.
+
+(* C09_merge_includes_mixed: the two parents are what the two front ends deliver for the root document (JSON at counter 41
+   in fsA, native at counter 7 in fsB): they are related (prel), the merges of their include graphs -- every file in the
+   opposite format -- are related (rres), and both succeed *)
+Example C09_merge_includes_mixed_nonvacuous :
+  let root := of_string "/r/root" in
+  exists pr1 pr2, parse_unit true root 41 (c09_J c09_root) = Ok pr1 /\ parse_unit true root 7 (c09_N c09_root) = Ok pr2 /\
+    fs_rel c09_fsA c09_fsB /\ prel (pr_sd pr1) (pr_sd pr2) /\ (-1 <= pr_count pr1)%Z /\ (-1 <= pr_count pr2)%Z /\
+    rres (merge_includes c09_fsA true (pr_sd pr1) (pr_count pr1)) (merge_includes c09_fsB true (pr_sd pr2) (pr_count pr2)) /\
+    map fst (sd_inc (pr_sd pr1)) = [42; 43]%N /\ map fst (sd_inc (pr_sd pr2)) = [8; 9]%N /\
+    (exists s1 k1 s2 k2, merge_includes c09_fsA true (pr_sd pr1) (pr_count pr1) = Ok (s1, k1) /\
+                         merge_includes c09_fsB true (pr_sd pr2) (pr_count pr2) = Ok (s2, k2) /\
+                         opart (sd_data s1) = opart (sd_data s2) /\ map fst (sd_data s1) <> map fst (sd_data s2)).
+Proof.
+  intros root. pose proof (proj1 C09_read_mixed_formats_nonvacuous) as Hrel.
+  assert (Hu : udoc_okb (fst c09_root) (snd c09_root) = true) by (vm_compute; reflexivity).
+  destruct (parse_renders root 41%Z _ _ (c09_J c09_root) Hu (or_introl eq_refl) ltac:(discriminate)) as (pr1 & P1 & Q1).
+  destruct (parse_renders root 7%Z _ _ (c09_N c09_root) Hu (or_intror eq_refl) ltac:(discriminate)) as (pr2 & P2 & Q2).
+  destruct (presult_good _ _ _ pr1 Hu Q1) as [G1 O1]. destruct (presult_good _ _ _ pr2 Hu Q2) as [G2 O2].
+  assert (Hp : prel (pr_sd pr1) (pr_sd pr2)).
+  { split; [exact G1|]. split; [exact G2|]. split; [rewrite O1, O2; reflexivity|].
+    destruct Q1 as (? & ? & ? & ? & ? & ? & Hq1 & _). destruct Q2 as (? & ? & ? & ? & ? & ? & Hq2 & _). rewrite Hq1, Hq2. reflexivity. }
+  assert (K1 : (-1 <= pr_count pr1)%Z) by (destruct Q1 as (? & ? & ? & ? & ? & ? & ? & ? & ? & ? & Hq); exact Hq).
+  assert (K2 : (-1 <= pr_count pr2)%Z) by (destruct Q2 as (? & ? & ? & ? & ? & ? & ? & ? & ? & ? & Hq); exact Hq).
+  exists pr1, pr2.
+  refine (conj P1 (conj P2 (conj Hrel (conj Hp (conj K1 (conj K2 (conj (C09_merge_includes_mixed _ _ _ _ _ _ Hrel Hp K1 K2) _))))))).
+  vm_compute in P1. injection P1 as <-. vm_compute in P2. injection P2 as <-.
+  split; [vm_compute; reflexivity|]. split; [vm_compute; reflexivity|].
+  vm_compute. do 4 eexists. split; [reflexivity|]. split; [reflexivity|]. split; [reflexivity|discriminate].
+Qed.
+
+(* C09_merge_ordinary_part: a = what the JSON front end delivers for document a (an include placeholder, x, a nested dict y)
+   at counter 41; o = what the native front end delivers at counter 999998 for a document with an include placeholder of
+   its own (id 999999), a dict y that overlaps a's at depth 1 and adds a dict at depth 2, a new key z and a clashing x *)
+Definition c09_o : list (str * str) * list (key * tree) :=
+  ([(of_string "#include d", of_string "'d'")],
+   [(KS (of_string "y"), Dict [(KS (of_string "p"), Leaf (SInt 9)); (KS (of_string "q"), Dict [(KS (of_string "r"), Leaf (SInt 2))])]);
+    (KS (of_string "z"), Leaf (SBool true)); (KS (of_string "x"), Leaf (SInt 7))]).
+Example C09_merge_ordinary_part_nonvacuous :
+  exists pa po, parse_unit true (of_string "/r/a") 41 (c09_J c09_a) = Ok pa /\ parse_unit true (of_string "/r/o") 999998 (c09_N c09_o) = Ok po /\
+    good (pr_sd pa) /\ good (pr_sd po) /\
+    good (sd_merge (pr_sd pa) (sd_data (pr_sd po)) (Some (pr_sd po))) /\
+    opart (sd_data (sd_merge (pr_sd pa) (sd_data (pr_sd po)) (Some (pr_sd po)))) =
+      merge_spec (opart (sd_data (pr_sd pa))) (opart (sd_data (pr_sd po))) /\
+    map fst (sd_data (pr_sd pa)) = [KS (of_string "INCLUDE000042"); KS (of_string "x"); KS (of_string "y")] /\
+    map fst (sd_data (pr_sd po)) = [KS (of_string "INCLUDE999999"); KS (of_string "y"); KS (of_string "z"); KS (of_string "x")] /\
+    merge_spec (opart (sd_data (pr_sd pa))) (opart (sd_data (pr_sd po))) =
+      [(KS (of_string "x"), Leaf (SInt 2));
+       (KS (of_string "y"), Dict [(KS (of_string "p"), Leaf (SInt 1)); (KS (of_string "q"), Dict [(KS (of_string "r"), Leaf (SInt 2))])]);
+       (KS (of_string "z"), Leaf (SBool true))].
+Proof.
+  assert (Ha : udoc_okb (fst c09_a) (snd c09_a) = true) by (vm_compute; reflexivity).
+  assert (Ho : udoc_okb (fst c09_o) (snd c09_o) = true) by (vm_compute; reflexivity).
+  destruct (parse_renders (of_string "/r/a") 41%Z _ _ (c09_J c09_a) Ha (or_introl eq_refl) ltac:(discriminate)) as (pa & Pa & Qa).
+  destruct (parse_renders (of_string "/r/o") 999998%Z _ _ (c09_N c09_o) Ho (or_intror eq_refl) ltac:(discriminate)) as (po & Po & Qo).
+  destruct (presult_good _ _ _ pa Ha Qa) as [Ga _]. destruct (presult_good _ _ _ po Ho Qo) as [Go _].
+  destruct (C09_merge_ordinary_part (pr_sd pa) (pr_sd po) Ga Go) as [Gm Em].
+  exists pa, po. refine (conj Pa (conj Po (conj Ga (conj Go (conj Gm (conj Em _)))))).
+  vm_compute in Pa. injection Pa as <-. vm_compute in Po. injection Po as <-.
+  repeat split; vm_compute; reflexivity.
+Qed.
